@@ -2484,6 +2484,9 @@ EbErrorType decode_multiple_obu(EbDecHandle *dec_handle_ptr, uint8_t **data, siz
     EbErrorType status = EB_ErrorNone;
     ObuHeader   obu_header;
     int         frame_decoding_finished = 0;
+
+    /* obu_header.payload_size is read when an OBU carries no size field */
+    memset(&obu_header, 0, sizeof(obu_header));
 #ifdef SVT_AV1_VERIF
     if (svt_av1_verif_obu_trace)
         svt_av1_verif_obu_trace[3]++;
@@ -2527,6 +2530,8 @@ EbErrorType decode_multiple_obu(EbDecHandle *dec_handle_ptr, uint8_t **data, siz
 #endif
             if (status != EB_ErrorNone)
                 return status;
+            if (data_size < length_size)
+                return EB_Corrupt_Frame;
 
             *data += length_size;
             data_size -= length_size;
@@ -2540,10 +2545,17 @@ EbErrorType decode_multiple_obu(EbDecHandle *dec_handle_ptr, uint8_t **data, siz
         if (status != EB_ErrorNone)
             return status;
 
-        if (is_annexb)
+        if (is_annexb) {
+            if (obu_header.payload_size < obu_header.size)
+                return EB_Corrupt_Frame;
             obu_header.payload_size -= obu_header.size;
+        }
 
         payload_size = obu_header.payload_size;
+
+        /* the header and the size field must lie inside the data: data_size is unsigned */
+        if (data_size < obu_header.size + length_size)
+            return EB_Corrupt_Frame;
 
         *data += (obu_header.size + length_size);
         data_size -= (obu_header.size + length_size);
